@@ -211,6 +211,41 @@ func checkC08(c *an.Ctx) {
 				if !cc.IsInvoke() {
 					recv = cc.Args[0]
 				}
+				// a helper that sets on a container it was handed: the container is what its callers pass
+				if prm, isPrm := an.Resolve(recv).(*ssa.Parameter); isPrm && prm.Parent() == fn {
+					idx := -1
+					for i, q := range fn.Params {
+						if q == prm {
+							idx = i
+						}
+					}
+					for _, site := range p.CallSitesOf(fn) {
+						if idx < 0 || idx >= len(site.Common().Args) || !an.InModule(site.Parent()) {
+							continue
+						}
+						arg := site.Common().Args[idx]
+						u2, isLoad2 := an.Resolve(arg).(*ssa.UnOp)
+						if !isLoad2 {
+							continue
+						}
+						fa2, isFA2 := u2.X.(*ssa.FieldAddr)
+						if !isFA2 || !(an.TypeIs(fa2.X.Type(), "pkg/task", "Task") || an.TypeIs(fa2.X.Type(), "pkg/runner", "ExecutionContext")) {
+							continue
+						}
+						name2 := an.AccessPath(fa2).LastField()
+						if !fields[name2] {
+							continue
+						}
+						n++
+						key2 := an.Short(fn) + ":Set(" + prm.Name() + "←" + an.TypeField(fa2) + ")"
+						if freshContainer(arg, 0) {
+							c.OK(rule1, key2, x.Pos(), "Set on a container its caller built in the same activation")
+						} else {
+							c.Bad(rule1, key2, x.Pos(), "%s calls Set on its parameter %s, which %s binds to the container held in %s of %s (%s): the container is shared by every user of that task or context — a per-stage copy of the task is shallow — so the write is visible to other stages, pipelines and direct runs", an.Short(fn), prm.Name(), an.Short(site.Parent()), an.TypeField(fa2), an.Prov(fa2.X), p.Pos(site.Pos()))
+						}
+					}
+					return
+				}
 				// only containers read from the three task fields
 				u, isLoad := an.Resolve(recv).(*ssa.UnOp)
 				if !isLoad {
